@@ -281,11 +281,83 @@ pub fn check(sc: &ConnScenario, out: &ConnOutcome, rep: &mut RunReport) {
     }
 }
 
+fn gen_app(rng: &mut Rng) -> crate::net::NetScenario {
+    use crate::net::{NetCfg, NetClient, NetScenario};
+    let services = Services { discovery: Script::always(Some(0), DiscRes::Targets(vec![])), localization: gen_loc(rng), ..Default::default() };
+    let n = rng.range(1, 4);
+    let clients = (0..n)
+        .map(|i| {
+            let intent = if rng.chance(1, 2) { 2 } else { 3 };
+            let mut spec = ClientSpec::base(rng, intent);
+            spec.locale = gen_locale(rng);
+            spec.close_on_end_ns = Some(0);
+            spec.coalesce = rng.chance(1, 2);
+            NetClient { connect_at_ns: ms(rng.range(0, 1500)), peer: format!("192.0.2.{}:{}", 60 + i, 43_000 + i), spec, wplan: vec![] }
+        })
+        .collect();
+    NetScenario {
+        seed: rng.next_u64(),
+        cfg: NetCfg { timeout_ns: secs(60), use_start: true, localization_from_services: true, ..Default::default() },
+        wall: Default::default(),
+        services,
+        clients,
+        stop_at_ns: None,
+        stop_before: false,
+        yields_before_stop: 0,
+        cap_ns: secs(90),
+    }
+}
+
+/// Application mode: every player is refused for lack of a target, in the words the configuration holds for its locale.
+fn run_app(n: &crate::net::NetScenario) -> RunReport {
+    let c = &n.cfg;
+    if !net_domain_ok(n) || !c.use_start || !c.localization_from_services || c.agones || c.proxy.is_some() || c.limiter.is_some() || c.secret.is_some() || n.stop_at_ns.is_some() || c.timeout_ns < secs(30) || n.cap_ns < secs(60)
+        || !matches!(&n.services.discovery.default.res, DiscRes::Targets(t) if t.is_empty())
+        || n.clients.is_empty()
+        || n.clients.iter().any(|k| !matches!(k.spec.intent, 2 | 3) || k.spec.script.is_some() || !k.spec.mutations.is_empty() || !k.spec.cuts.is_empty() || !k.wplan.is_empty() || !k.spec.send_info || k.spec.mute_after.is_some() || k.spec.close_after.is_some() || k.spec.preamble.is_some() || !matches!(k.spec.enc, crate::client::EncVariant::Honest) || k.spec.shared_secret.len() != 16 || k.spec.auth_cookie.is_some())
+    {
+        return RunReport::default();
+    }
+    let out = crate::net::run_net(n);
+    let mut rep = RunReport { runs: 1, trace_hash: out.trace_hash(), full_hash: out.full_hash(), sim_ns: out.end_ns, nontrivial: true, ..Default::default() };
+    rep.merge_counts(&out.faults, &out.probes);
+    *rep.faults.entry("localization_through_the_application_configuration".into()).or_insert(0) += 1;
+    if !out.panics.is_empty() {
+        rep.violate("no_panic", format!("panicked: {}", out.panics[0].replace('\n', " ")));
+        return rep;
+    }
+    for (i, (k, spec)) in out.clients.iter().zip(n.clients.iter()).enumerate() {
+        if let Some(u) = &k.view.undecodable {
+            rep.violate("stream_decodes", format!("client {i}: {u}"));
+            continue;
+        }
+        if k.view.first("Transfer").is_some() {
+            rep.violate("no_transfer_without_target", format!("client {i}: nothing to route to, but packets {:?}", k.view.kinds()));
+        }
+        let ds = k.view.all("Disconnect");
+        if ds.len() != 1 {
+            rep.violate("one_disconnect_without_target", format!("client {i} (locale {:?}): packets {:?}", spec.spec.locale, k.view.kinds()));
+            continue;
+        }
+        if let Some(want) = ref_localize(&n.services.localization, Some(&spec.spec.locale), "disconnect_no_target")
+            && !text_matches(&ds[0].fields["reason"], &want)
+        {
+            rep.violate(
+                "disconnect_text_localized",
+                format!("client locale {:?}: Disconnect says {} but the configured message is {:?} (default locale {:?}, configured tables {:?})", spec.spec.locale, ds[0].fields["reason"], want, n.services.localization.default_locale, n.services.localization.messages.keys().collect::<Vec<_>>()),
+            );
+        }
+    }
+    rep
+}
+
 /// A single connection over the simulated pipe, or several players through one real `Listener`.
 #[derive(Clone, Debug, serde::Serialize, serde::Deserialize, PartialEq)]
 pub enum C03Sc {
     Conn(Box<ConnScenario>),
     Listener(Box<crate::net::NetScenario>),
+    /// the application entry point with the localization tables in its configuration and nothing to route to
+    App(Box<crate::net::NetScenario>),
 }
 
 impl Check for C03 {
@@ -315,12 +387,16 @@ impl Check for C03 {
         }
     }
     fn generate(&self, rng: &mut Rng, index: u64, _tier: Tier) -> C03Sc {
+        if index % 16 == 6 {
+            return C03Sc::App(Box::new(gen_app(rng)));
+        }
         if index % 8 == 7 { C03Sc::Listener(Box::new(super::swarm::generate(rng))) } else { C03Sc::Conn(Box::new(generate(rng))) }
     }
     fn execute(&self, sc: &C03Sc) -> RunReport {
         let sc: &ConnScenario = match sc {
             C03Sc::Conn(c) => c,
             C03Sc::Listener(n) => return super::swarm::execute(n, false, true),
+            C03Sc::App(n) => return run_app(n),
         };
         if !conn_domain_ok(sc) || !matches!(sc.client.intent, 2 | 3) || sc.client.script.is_some() || !sc.client.mutations.is_empty() || !matches!(sc.client.enc, crate::client::EncVariant::Honest) || !sc.client.send_info {
             return RunReport::default();
